@@ -64,7 +64,7 @@ func copyProof(p *merkle_proof.MerkleProof) *merkle_proof.MerkleProof {
 }
 
 var c18Obs struct {
-	valid, corrupt, sideBlocks, bestBlocks, prunedBlocks, removedBlocks int64
+	valid, corrupt, sideBlocks, bestBlocks, prunedBlocks, removedBlocks, droppedBlocks int64
 }
 
 // c18Post verifies proofs for the blocks of a finished history against the live repository.
@@ -96,11 +96,31 @@ func c18Post(ctx context.Context, run *common.Run, res *GenResult, idx int) {
 		picks = picks[:6]
 	}
 	for _, n := range picks {
-		if m.MaybeDropped[n.Hash] {
-			continue
-		}
 		txids := res.Blocks[n.Hash]
 		onBest := m.OnBest(n)
+		if m.MaybeDropped[n.Hash] {
+			// a side-branch block a Load may not have restored: unknown, or its true height off the best chain
+			if onBest {
+				continue
+			}
+			for _, mode := range []struct{ hdr, hash bool }{{true, false}, {false, true}} {
+				pc := proofCase{Block: n.Hash, Txids: txids, Index: rng.Intn(len(txids)), UseHdr: mode.hdr, UseHash: mode.hash}
+				h, l, err, pan := verify(buildProof(n.Header, pc))
+				run.Eval(1)
+				atomic.AddInt64(&c18Obs.droppedBlocks, 1)
+				desc := fmt.Sprintf("block h=%d (side branch a load may have dropped) ntx=%d hdr=%v hash=%v", n.Height, len(txids), mode.hdr, mode.hash)
+				switch {
+				case pan != "":
+					report("verification-never-crashes", "verify-panic/maybe-dropped", desc+": "+pan, pc)
+				case err != nil && errClass(err) != "unknown":
+					report("valid-proof-verifies", "valid-proof-rejected/maybe-dropped/"+errClass(err), fmt.Sprintf("%s: %v", desc, err), pc)
+				case err == nil && (h != n.Height || l):
+					report("reports-true-height-and-best-chain-status", fmt.Sprintf("valid-proof-wrong-result/maybe-dropped/height-delta=%d/flag=%v-want-false", clampDelta(h, n.Height), l),
+						fmt.Sprintf("%s: got (%d,%v) want (%d,false) or unknown", desc, h, l, n.Height), pc)
+				}
+			}
+			continue
+		}
 		where := "side"
 		if onBest {
 			where = "best"
